@@ -21,6 +21,9 @@ struct St {
     /// closures that escaped from frames discarded by an uncaught throw (plain call / fiber)
     esc: bool,
     escf: bool,
+    /// closures that escaped from a fiber / a main-fiber frame that was *waiting* for the fiber that threw
+    escw: bool,
+    escm: bool,
     m_global: bool,
     m_loaded: bool,
     m_v: i64,
@@ -55,7 +58,9 @@ const SNIPPETS: &[(&str, &str)] = &[
     ("probe_dead_fiber_chain", "print(fi.has_finished());\nprint(fo.has_finished());\nfo.call();\n"),
     ("closure_escapes_then_throw", "var esc = nil;\nfn mk() { var x = \"kept\"; esc = || x; throw \"after escape\"; }\nmk();\n"),
     ("closure_escapes_in_fiber_then_throw", "var escf = nil;\nFiber.new(|| { var y = \"kept in fiber\"; escf = || y; throw \"after escape in fiber\"; }).call();\n"),
-    ("probe_escaped_closures", "var junk = [];\nfor i in 0..40 { junk.push(\"s${i}\"); }\nprint(esc());\nprint(escf());\n"),
+    ("closure_escapes_from_waiting_fiber_then_inner_throws", "var escw = nil;\nvar fow = Fiber.new(|| { var z = [1, 2, 3]; escw = || z; var fiw = Fiber.new(|| { throw \"inner of waiting\"; }); fiw.call(); });\nfow.call();\n"),
+    ("closure_escapes_from_waiting_main_frame_then_fiber_throws", "var escm = nil;\nfn holder() { var q = {\"held\": \"by main\"}; escm = || q; Fiber.new(|| { throw \"inner of main\"; }).call(); }\nholder();\n"),
+    ("probe_escaped_closures", "var junk = [];\nfor i in 0..40 { junk.push(\"s${i}\"); }\ntry { print(esc()); } catch e { print(type(e)); }\ntry { print(escf()); } catch e { print(type(e)); }\ntry { print(escw()); } catch e { print(type(e)); }\ntry { print(escm()); } catch e { print(type(e)); }\n"),
     ("assign_undefined_global", "ug1 = 5;\n"),
     ("assign_undefined_global_in_call", "fn setg() { ug2 = [1, 2]; }\nsetg();\n"),
     ("assign_undefined_global_in_fiber", "Fiber.new(|| { ug3 = \"leak\"; }).call();\n"),
@@ -171,14 +176,23 @@ fn step(s: &St, name: &str) -> (St, Vec<String>, String) {
             n.escf = true;
             (n, vec![], "Unhandled exception: after escape in fiber".into())
         }
+        "closure_escapes_from_waiting_fiber_then_inner_throws" => {
+            n.escw = true;
+            (n, vec![], "Unhandled exception: inner of waiting".into())
+        }
+        "closure_escapes_from_waiting_main_frame_then_fiber_throws" => {
+            n.escm = true;
+            (n, vec![], "Unhandled exception: inner of main".into())
+        }
         "probe_escaped_closures" => {
-            if !s.esc {
-                (n, vec![], name_err("esc"))
-            } else if !s.escf {
-                (n, vec!["kept".into()], name_err("escf"))
-            } else {
-                (n, vec!["kept".into(), "kept in fiber".into()], ok)
-            }
+            let ne = "<class NameError>".to_string();
+            let out = vec![
+                if s.esc { "kept".to_string() } else { ne.clone() },
+                if s.escf { "kept in fiber".to_string() } else { ne.clone() },
+                if s.escw { "[1, 2, 3]".to_string() } else { ne.clone() },
+                if s.escm { "{held: by main}".to_string() } else { ne.clone() },
+            ];
+            (n, out, ok)
         }
         "assign_undefined_global" => (n, vec![], name_err("ug1")),
         "assign_undefined_global_in_call" => (n, vec![], name_err("ug2")),
@@ -299,7 +313,7 @@ pub fn run(ctx: &Ctx) -> Report {
     expect::fill(
         &mut report,
         &stats,
-        "breadth-first search over histories of snippets fed to one interpreter, with canonical reference state (surviving globals, functions, classes, fiber objects, loaded modules); alphabet of 33 snippets: definitions and uses, a compile error, uncaught throws at top level / two calls deep / inside a fiber / inside try-finally / while a class is half-declared / from a built-in inside a method, clean try/finally, try/catch and class+loop probes, a fiber left suspended inside try/finally and resumed by a later snippet, probes of a fiber that died from an uncaught throw and of a chain of two such fibers (both must be finished), closures that escaped into globals from a call frame / a fiber discarded by an uncaught throw and are called later (swept objects quarantined: any touch of freed memory is a violation), assignments to undefined globals that end the snippet (top level, in a call, in a fiber) and a `var` whose initialiser fails, with a probe that none of those names came into being, import and module mutation, reset. Every transition is replayed as the shortest history reaching its source state plus the snippet, on a fresh real interpreter; each snippet's printed lines and outcome must equal the model's; no snippet may panic. Because that search merges histories by model state, a second family runs every history up to length 3 (4) over the whole alphabet without merging, so that every snippet - in particular every failing one, which leaves the model state unchanged - is followed by every other.",
+        "breadth-first search over histories of snippets fed to one interpreter, with canonical reference state (surviving globals, functions, classes, fiber objects, loaded modules); alphabet of 35 snippets: definitions and uses, a compile error, uncaught throws at top level / two calls deep / inside a fiber / inside try-finally / while a class is half-declared / from a built-in inside a method, clean try/finally, try/catch and class+loop probes, a fiber left suspended inside try/finally and resumed by a later snippet, probes of a fiber that died from an uncaught throw and of a chain of two such fibers (both must be finished), closures that escaped into globals from a call frame / a fiber discarded by an uncaught throw - the throwing one, and a fiber or a main-fiber frame that was waiting for it - and are called later (swept objects quarantined: any touch of freed memory is a violation), assignments to undefined globals that end the snippet (top level, in a call, in a fiber) and a `var` whose initialiser fails, with a probe that none of those names came into being, import and module mutation, reset. Every transition is replayed as the shortest history reaching its source state plus the snippet, on a fresh real interpreter; each snippet's printed lines and outcome must equal the model's; no snippet may panic. Because that search merges histories by model state, a second family runs every history up to length 3 (4) over the whole alphabet without merging, so that every snippet - in particular every failing one, which leaves the model state unchanged - is followed by every other.",
         json!({"history_length": depth, "snippets": SNIPPETS.len()}),
     );
     report.cov("states", json!(states));
